@@ -125,6 +125,9 @@ func (g *gen) kind(t types.Type, sub tsubst) tkind {
 		if u.NumMethods() == 0 && u.NumEmbeddeds() == 0 {
 			return kAny
 		}
+		if types.Identical(u, types.Universe.Lookup("error").Type().Underlying()) {
+			return kError // `type E error`: an error value under another static type
+		}
 		if u.NumMethods() == 1 && u.NumEmbeddeds() == 0 {
 			return kIfaceFn
 		}
